@@ -69,6 +69,9 @@ def _eval(case):
             return res, base
         for (xx, ext) in case["configs"]:
             kw = sc.kw_for(("G", ("*__pycache__*",)), xx, None, ext)
+            if case.get("explicit_empty") and not xx and ext[1]:
+                # the other kind of external pattern passed explicitly as an empty tuple: it says nothing and changes nothing
+                kw["regex_external_exclusions" if ext[0] == "G" else "external_exclusions"] = ()
             res.append(sc.real_scan(proj, root, mp, **kw))
             lines.append((base, xx, ext))
     return res, base
@@ -165,7 +168,7 @@ def stream_cases(ctx: Ctx, s, n, rng):
             configs.append((False, ("G", g)))
             r = tuple(rng.choice([r"os(\..*)?$", r"ext\.lib", r".*\.m$", r"proj.*", r"a$", r"ab\.", r".*x"]) for _ in range(rng.randint(1, 2)))
             configs.append((False, ("R", r)))
-            cases.append({"tree": tree, "root": "proj", "mp": mp, "configs": configs, "relative": rng.random() < 0.25})
+            cases.append({"tree": tree, "root": "proj", "mp": mp, "configs": configs, "relative": rng.random() < 0.25, "explicit_empty": rng.random() < 0.3})
         judge(ctx, s, cases)
         done += len(cases)
 
